@@ -901,9 +901,145 @@ fn cmd_cfgrandom(args: &[String]) {
     );
 }
 
+// ---------------------------------------------------------------------------------------
+// log capture pipeline under virtual time.
+// input: one JSON per line {"streams":[{"chunks":[[tok..]..],"gaps":[k..]}..]}; tokens "x","y" are
+// concretised to two letters per stream, "n" to a newline.
+fn capture_one(dir: &Path, case: &Value) -> Value {
+    let streams = case["streams"].as_array().unwrap();
+    let mut scripts: Vec<Vec<(u64, Vec<u8>)>> = vec![];
+    let mut written: Vec<Vec<u8>> = vec![];
+    for (i, s) in streams.iter().enumerate() {
+        let chunks = s["chunks"].as_array().unwrap();
+        let gaps: Vec<u64> = s["gaps"].as_array().unwrap().iter().map(|g| g.as_u64().unwrap()).collect();
+        let mut script = vec![];
+        let mut all = vec![];
+        // absolute virtual time of the next write; ticks fire at 0, 500, 1000, ... after the reader starts
+        let mut t: u64 = 0;
+        let mut prev: u64 = 0;
+        for (j, c) in chunks.iter().enumerate() {
+            let k = gaps[j];
+            // place the write strictly inside the tick interval that lies k ticks after the previous write
+            let interval = t / 500 + k;
+            let mut nt = interval * 500 + 3 + (i as u64 % 7) * 5 + (j as u64 % 9);
+            if nt <= t {
+                nt = t + 1;
+            }
+            let bytes: Vec<u8> = c
+                .as_array()
+                .unwrap()
+                .iter()
+                .map(|tk| match tk.as_str().unwrap() {
+                    "n" => b'\n',
+                    "x" => b'a' + ((2 * i) % 24) as u8,
+                    _ => b'b' + ((2 * i) % 24) as u8,
+                })
+                .collect();
+            all.extend_from_slice(&bytes);
+            script.push((nt - prev, bytes));
+            prev = nt;
+            t = nt;
+        }
+        // ticks between the last chunk and the close: an empty final write after the delay
+        let k = gaps[chunks.len()];
+        if k > 0 {
+            let nt = (t / 500 + k) * 500 + 3;
+            script.push((nt - prev, vec![]));
+        }
+        scripts.push(script);
+        written.push(all);
+    }
+    // streams come in pairs (stdout, stderr of one target): a compressor thread without any client would never
+    // be told to shut down, so an odd group is padded with a silent stream
+    let padded = scripts.len() % 2 == 1;
+    if padded {
+        scripts.push(vec![]);
+    }
+    let rt = tokio::runtime::Builder::new_current_thread()
+        .enable_all()
+        .start_paused(true)
+        .build()
+        .unwrap();
+    let res = rt.block_on(verif::capture(dir, scripts, 2));
+    match res {
+        Ok(mut files) => {
+            if padded {
+                files.pop();
+            }
+            let toks = |i: usize, v: &Vec<u8>| -> Vec<String> {
+                v.iter()
+                    .map(|b| {
+                        if *b == b'\n' {
+                            "n".to_string()
+                        } else if *b == b'a' + ((2 * i) % 24) as u8 {
+                            "x".to_string()
+                        } else if *b == b'b' + ((2 * i) % 24) as u8 {
+                            "y".to_string()
+                        } else {
+                            format!("<foreign:{}>", b)
+                        }
+                    })
+                    .collect()
+            };
+            json!({"ev": "capture", "streams": case["streams"], "ok": true,
+                   "files": files.iter().enumerate().map(|(i, f)| toks(i, f)).collect::<Vec<_>>(),
+                   "bytes_equal": files.iter().zip(written.iter()).map(|(a, b)| a == b).collect::<Vec<_>>()})
+        }
+        Err(e) => json!({"ev": "capture", "streams": case["streams"], "ok": false, "files": [], "bytes_equal": [], "err": e}),
+    }
+}
+
+fn cmd_capture(args: &[String]) {
+    let cases_path = arg(args, "--cases").expect("--cases");
+    let out = PathBuf::from(arg(args, "--out").expect("--out"));
+    let work = PathBuf::from(arg(args, "--work").expect("--work"));
+    let threads: usize = arg(args, "--threads").map(|s| s.parse().unwrap()).unwrap_or(8);
+    let cases: Vec<Value> = std::io::BufReader::new(std::fs::File::open(cases_path).unwrap())
+        .lines()
+        .map(|l| serde_json::from_str(&l.unwrap()).unwrap())
+        .collect();
+    let chunk = (cases.len() + threads - 1) / threads.max(1);
+    let results: Vec<Vec<Value>> = std::thread::scope(|sc| {
+        let mut hs = vec![];
+        for (ti, part) in cases.chunks(chunk.max(1)).enumerate() {
+            let work = work.clone();
+            hs.push(sc.spawn(move || {
+                let mut out = vec![];
+                for (ci, c) in part.iter().enumerate() {
+                    let d = work.join(format!("w{}-{}", ti, ci % 4));
+                    let _ = std::fs::remove_dir_all(&d);
+                    std::fs::create_dir_all(&d).unwrap();
+                    out.push(capture_one(&d, c));
+                }
+                out
+            }));
+        }
+        hs.into_iter().map(|h| h.join().unwrap()).collect()
+    });
+    let mut f = std::io::BufWriter::new(std::fs::File::create(&out).unwrap());
+    let mut n = 0;
+    for part in results {
+        for r in part {
+            writeln!(f, "{}", r).unwrap();
+            n += 1;
+        }
+    }
+    println!("{}", json!({"evaluations": n, "records": n}));
+}
+
+fn cmd_unzst(args: &[String]) {
+    let p = args.get(2).expect("file");
+    let f = std::fs::File::open(p).unwrap();
+    let mut dec = zstd::stream::read::Decoder::new(f).unwrap();
+    let mut out = std::io::stdout();
+    std::io::copy(&mut dec, &mut out).unwrap();
+}
+
 fn main() {
     let args: Vec<String> = std::env::args().collect();
     match args.get(1).map(|s| s.as_str()) {
+        Some("capture") => cmd_capture(&args),
+        Some("unzst") => cmd_unzst(&args),
         Some("cfgcases") => cmd_cfgcases(&args),
         Some("cfgrandom") => cmd_cfgrandom(&args),
         Some("dagcases") => cmd_dagcases(&args),
